@@ -28,17 +28,20 @@ MANIFEST = {
             '(created_only_while_task_open, completed_task_has_no_running_child_started_later); unequal / non-iterable '
             'item lists, a failing items expression or an ill-typed concurrency are a declared error in the start '
             'transaction and nothing is ever started, reruns included (unevaluable_items_start_nothing); no index is '
-            'started twice and none >= n for ALL tables (index_started_once_all_tables). Two full statements are FALSE '
-            'of the unchanged code over the failure tables and kept as _full_fails (witnesses replayed, known findings) '
-            'with _partial for tables without failing inputs: an input that fails in a LATER concurrency round fails the '
-            'task while siblings are RUNNING, and a rerun of that task exceeds the concurrency limit.',
+            'started twice and none >= n for ALL tables (index_started_once_all_tables). Since repo patch 30 (the inputs of '
+            'ALL items are evaluated and validated against the action when the task is started or rerun, of the whole '
+            'portion otherwise, before any execution is created) every failure table either starts nothing at all or '
+            'gives the clean history (eval_failure_or_clean), hence running_le_concurrency_all_tables and '
+            'error_task_has_no_running_child hold at FULL strength over all tables; their former counter-witnesses '
+            '(an input failing in a later concurrency round with siblings RUNNING; the rerun that then exceeded the '
+            'limit) are corpus regressions.',
     'note': 'Engine-level: one transaction = one step (in-process tx_lock atomicity); multi-process interleavings '
             'inside on_action_complete are serialised by the named lock and are not exhibited. Sub-workflow items are '
             'not generated (actions only). Rerun is modelled for ERROR tasks (the REST API refuses others). The '
             'outcome of every evaluation is an oracle of the run (EvalSpec), fixed for the whole history; YAQL/Jinja '
-            'themselves are not modelled. Action-parameter VALIDATION and target evaluation, which the code does per item '
-            'inside the scheduling loop (a defect of its own, docs/C07.md X2), and a float concurrency (X1, repo patch 24 '
-            'offered) are outside the model and not generated.',
+            'themselves are not modelled; an input the action refuses (check_parameters) counts as a failing input. '
+            '`target:` evaluation and Action.instantiate, still done per item inside the scheduling loop, are outside '
+            'the model and not generated.',
 }
 RULE = ('stream withitems: generated workflows with one with-items task (n = 0..8 items from the input, concurrency '
         'absent / literal 1..n+1 (or 0) / expression <% $.c %> / task-defaults, std.echo or std.noop, optional retry '
